@@ -124,6 +124,11 @@ func (f *LossFrame) packets(codec string) [][]byte {
 			if f.EmptyFU&8 != 0 {
 				train[0][0] |= 0x80 // forbidden_zero_bit set on the start fragment's FU indicator (flagged as damaged in transit)
 			}
+			if f.EmptyFU&16 != 0 {
+				for k := range train {
+					train[k][1] |= 0x20 // the reserved R bit of the FU header, which receivers must ignore
+				}
+			}
 			out = append(out, train...)
 		}
 
@@ -353,6 +358,9 @@ func genLossFrame(t *rapid.T, codec string, mustFragment bool, label string) Los
 	if f.RefEnc && rapid.IntRange(0, 5).Draw(t, label+"fbit") == 0 {
 		f.EmptyFU |= 8
 	}
+	if f.RefEnc && rapid.IntRange(0, 5).Draw(t, label+"rbit") == 0 {
+		f.EmptyFU |= 16
+	}
 	k := rapid.IntRange(1, 3).Draw(t, label+"nnals")
 	for i := 0; i < k; i++ {
 		n := NALSpec{Type: rapid.SampledFrom([]uint8{1, 1, 5, 5, 6, 2, 3}).Draw(t, label+"type"), NRI: uint8(rapid.IntRange(0, 3).Draw(t, label+"nri")),
@@ -382,7 +390,7 @@ func genLossCase(t *rapid.T) *LossCase {
 		c.A2 = &a2
 		c.A2Mask = rapid.Uint32().Draw(t, "a2mask")
 	}
-	if rapid.IntRange(0, 59).Draw(t, "hugeopen") == 0 {
+	if rapid.IntRange(0, 29).Draw(t, "hugeopen") == 17 { // a mid-range value: rapid favours the ends of a range
 		// just below a round size (a reassembly limit would sit at one): 2^k - d bytes buffered
 		k := rapid.SampledFrom([]int{20, 21, 22, 23, 24}).Draw(t, "hugeopenlog")
 		if c.Codec == "av1" {
@@ -425,7 +433,7 @@ func genLossCase(t *rapid.T) *LossCase {
 	return c
 }
 
-const ruleC15 = "rapid draws (codec in {H264Packet Annex-B, H264Packet AVC, AV1Depacketizer}, frame A with at least one fragmented unit packetised by the library's payloader or an independent encoder (AV1: W=0 and counted forms, up to three elements per packet, fragments cut anywhere; H264: also empty fragments, start fragments flagged with the F bit and, for units that fit, single FU-As carrying S and E together), optionally a second lossy frame delivered under a drawn mask, frame B of any shape (sometimes starting with an SPS/PPS pair), 0-5 garbage inputs - random strings, stray continuation fragments or damaged copies of A's own packets - interleaved at drawn positions before, inside and after A and always delivered; one case in 60 additionally delivers an end-less fragment train holding 2^k - {0,1,2,3,100} bytes (k 20-24; AV1 18-21) right before B); for A of up to 10 packets ALL 2^n delivery subsets are enumerated in order (1024 drawn subsets beyond that), each followed by the complete frame B; oracle: for every packet of B the output bytes, error-ness and AV1 Z/Y/N of the used receiver equal those of a fresh receiver fed B only. Non-trivial = case in which some subset leaves a fragment train open (start delivered, end lost) and B contains a fragmented unit; evaluations count cases plus enumerated subsets; distinct = FNV-64 of the JSON case"
+const ruleC15 = "rapid draws (codec in {H264Packet Annex-B, H264Packet AVC, AV1Depacketizer}, frame A with at least one fragmented unit packetised by the library's payloader or an independent encoder (AV1: W=0 and counted forms, up to three elements per packet, fragments cut anywhere; H264: also empty fragments, start fragments flagged with the F bit, FU headers with the reserved R bit set and, for units that fit, single FU-As carrying S and E together), optionally a second lossy frame delivered under a drawn mask, frame B of any shape (sometimes starting with an SPS/PPS pair), 0-5 garbage inputs - random strings, stray continuation fragments or damaged copies of A's own packets - interleaved at drawn positions before, inside and after A and always delivered; about one case in 30 additionally delivers an end-less fragment train holding 2^k - {0,1,2,3,100} bytes (k 20-24; AV1 18-21) right before B); for A of up to 10 packets ALL 2^n delivery subsets are enumerated in order (1024 drawn subsets beyond that), each followed by the complete frame B; oracle: for every packet of B the output bytes, error-ness and AV1 Z/Y/N of the used receiver equal those of a fresh receiver fed B only. Non-trivial = case in which some subset leaves a fragment train open (start delivered, end lost) and B contains a fragmented unit; evaluations count cases plus enumerated subsets; distinct = FNV-64 of the JSON case"
 
 func TestC15(t *testing.T) {
 	r := begin(t, "C15", "fault_enumeration", ruleC15)
